@@ -29,8 +29,12 @@ fn dev_combos() -> Vec<(String, Dev)> {
 }
 
 /// Threshold-aimed value: a container whose size lands around 255/256 or 65535/65536.
-fn gen_threshold(src: &mut Src) -> (RSig, RVal) {
+pub fn gen_threshold(src: &mut Src) -> (RSig, RVal) {
     let big_thr = src.chance(40);
+    gen_threshold_sized(src, big_thr)
+}
+
+pub fn gen_threshold_sized(src: &mut Src, big_thr: bool) -> (RSig, RVal) {
     let target = if big_thr { 65_520 + src.below(32) } else { 240 + src.below(32) };
     let shape = src.below(6);
     let pad = |n: usize| RVal::S("p".repeat(n));
